@@ -126,10 +126,8 @@ def tyOf : String → Option Ty
 def ctxNames : List String :=
   ["NR", "FNR", "NF", "FILENAME", "FILENUM", "M_PI", "M_E", "IPS", "IFS", "IRS", "OPS", "OFS", "ORS", "FLATSEP"]
 
-/-- Binary levels, loosest first, all left-associative (the documented table). -/
-def binLevels : List (List String) :=
-  [["||"], ["^^"], ["&&"], ["=~", "!=~", "==", "!=", "<=>"], ["<", "<=", ">", ">="], ["|"], ["^"], ["&"],
-   ["<<", ">>", ">>>"], ["+", "-", ".+", ".-"], ["*", "/", "//", "%", ".*", "./"]]
+/-- Binary levels, loosest first, all left-associative: derived from the documented table. -/
+def binLevels : List (List String) := DSL.binaryLevels
 
 def toLHS : Expr → Option LHS
   | .field n => some (.field n)
